@@ -4,11 +4,13 @@ import vlib
 from common import validate
 
 
-def bubble_tv(ctx, test, sub, module, cfg, label, args, timeout=1800, silent=True, race=False, sig=None, env=None):
+def bubble_tv(ctx, test, sub, module, cfg, label, args, timeout=1800, silent=True, race=False, sig=None, env=None, perturb=False):
+    """perturb=True: the runs are executed by the binary built against the instrumented copy (every statement of the
+    concurrent packages is a seeded yield point, GOMAXPROCS=1): schedules the Go scheduler does not produce by itself"""
     tf = ctx.path("bubble-%s.ndjson" % label.replace(" ", "-"))
     a = dict(args)
     a["out"] = tf
-    rc, o = ctx.run_vhb(test, a, timeout=timeout, race=race, env_extra=env)
+    rc, o = ctx.run_vhb(test, a, timeout=timeout, race=race, env_extra=env, perturb=perturb)
     reps = ctx.harness_report(o, "bubble " + label)
     if rc != 0 or not reps:
         raise vlib.Trouble("bubble runner %s died (rc=%s):\n%s" % (test, rc, o[-3000:]))
